@@ -230,7 +230,10 @@ func (s *source) serve(h int, class string, variant int) (*gtypes.Block, string)
 	case "good":
 		return b, "good"
 	case "body":
-		switch variant % 6 {
+		switch variant % 7 {
+		case 6:
+			b.Data = nil
+			return b, "Data missing (LastCommit intact)"
 		case 0:
 			b.Data.Txs = append(b.Data.Txs, gtypes.Tx("injected"))
 			return b, "txs appended, header untouched"
@@ -328,14 +331,12 @@ func (s *source) serve(h int, class string, variant int) (*gtypes.Block, string)
 			return b, "precommit 1 carries index and address of validator 2"
 		}
 	case "nilpart":
-		switch variant % 2 {
-		case 0:
-			b.LastCommit = nil
-			return b, "LastCommit missing"
-		default:
-			b.Data = nil
-			return b, "Data missing"
+		if variant%2 == 1 {
+			b.Data, b.LastCommit = nil, nil
+			return b, "LastCommit and Data missing"
 		}
+		b.LastCommit = nil
+		return b, "LastCommit missing"
 	case "nilhdr":
 		switch variant % 2 {
 		case 0:
